@@ -14,6 +14,21 @@ C = 100.0
 COND_MAX = 1e3
 
 
+def tt_matvec_dense(A, xd):
+    """dense vector A x for a TT-matrix A, core by core (the (prod M) x (prod N) matrix is never formed)"""
+    M, N = [int(m) for m in A.M], [int(n) for n in A.N]
+    y = xd.reshape(1, 1, -1)                       # (P, r, rest)
+    for k, core in enumerate(A.cores):
+        P, r = y.shape[0], y.shape[1]
+        y = y.reshape(P, r, N[k], -1)
+        y = torch.einsum('prnq,rmnR->pmRq', y, core)
+        y = y.reshape(P * M[k], core.shape[3], -1)
+    return y.reshape(-1)
+
+
+BIG = 5000         # above this number of unknowns the dense matrix is not formed
+
+
 def _residual(result, A, b, eps):
     Am = as_matrix(A)
     bd = dense(b).reshape(-1)
@@ -27,18 +42,27 @@ def _residual(result, A, b, eps):
 
 
 def _well_conditioned(A):
+    if list(A.M) != list(A.N):
+        return False
+    n = 1
+    for m in A.M:
+        n *= int(m)
+    if n > BIG:
+        # too large for a dense condition number: sufficient condition ||A - I||_F <= 0.31  =>  cond_2(A) <= 1.31 / 0.69
+        # (the norm is the library's TT norm of A - eye: C04 / C07)
+        return float((A - torchtt.eye([int(m) for m in A.M], dtype=A.cores[0].dtype)).norm()) <= 0.31
     Am = as_matrix(A)
     return Am.shape[0] == Am.shape[1] and float(torch.linalg.cond(Am)) <= COND_MAX
 
 
 def _residual_old(result, OLD, eps):
     """residual w.r.t. the operands AS THEY WERE BEFORE the call (a call that overwrites b must not pass trivially)."""
-    Am = as_matrix(frozen(OLD.A))
+    A0 = frozen(OLD.A)
     bd = dense(frozen(OLD.b)).reshape(-1)
     xd = dense(result).reshape(-1)
     if xd.numel() != bd.numel():
         return False, "solution has %d entries, rhs has %d" % (xd.numel(), bd.numel())
-    res = fro(Am @ xd - bd)
+    res = fro((as_matrix(A0) @ xd if xd.numel() <= BIG else tt_matvec_dense(A0, xd)) - bd)
     nb = fro(bd)
     return within(res, C * eps * nb, "||A x - b|| (C=%g, eps=%g, ||b||=%.3e, relative residual %.3e, ranks of x %s)" % (
         C, eps, nb, res / nb if nb else float("nan"), list(result.R)))
@@ -104,6 +128,11 @@ def build_operator(kind, N, rA, dt):
             term = torchtt.TT([f.reshape(1, f.shape[0], f.shape[1], 1) for f in factors])
             A = term if A is None else A + term
         return A.round(1e-13)
+    if kind == "sddR":
+        # round 7: symmetric, strictly diagonally dominant, operator ranks given as a list: I + 0.3 * sym(P) / ||P||_F
+        P = torchtt.random(sq, list(rA), dtype=dt)
+        P = P * (1.0 / float(P.norm()))
+        return I + 0.3 * 0.5 * (P + P.t())
     B = rand_tt(torchtt, sq, rA, dt)
     if kind == "spd":
         S = B + B.t()
@@ -156,7 +185,7 @@ def _mk(kind, N, rA, rb, eps, x0, prec, max_full, local_solver, seed, twice=Fals
          "max_full": max_full, "local_solver": local_solver, "seed": seed, "dtype": "float64"}
     if rhs:
         a["rhs"] = rhs
-    a["id"] = case_id("amen_solve", kind, "N=%s" % str(list(N)).replace(" ", ""), "rA=%d" % rA, "rb=%s" % (rhs or rb),
+    a["id"] = case_id("amen_solve", kind, "N=%s" % str(list(N)).replace(" ", ""), "rA=%s" % (rA if isinstance(rA, int) else "-".join(str(r_) for r_ in rA)), "rb=%s" % (rhs or rb),
                       "eps=%g" % eps, "x0=%s" % ("none" if x0 is None else (x0 if isinstance(x0, str) else "rank%d" % x0)),
                       "prec=%s" % prec, "max_full=%d" % max_full, "ls=%d" % local_solver, "seed=%d" % seed)
     if twice:
@@ -220,6 +249,11 @@ def enumerate_cases(tier, seed):
         for p in ("c", "r"):
             for ls in (1, 2):
                 cases.append(_mk("conv", N, 0, 2, 1e-6, None, p, 0, ls, seeds[0]))
+    # round 7: systems of order 5 whose solution has TT ranks above 1 + 22*kickrank = 89: the default number of sweeps is exhausted
+    # (known finding KF-nswp-C12)
+    for s in ([0] if quick else [0, 1, 2]):
+        for (p, mf, ls) in ([(None, 500, 1)] if quick else [(None, 500, 1), ("r", 0, 2)]):
+            cases.append(_mk("sddR", [10, 11, 12, 8, 4], [1, 3, 4, 3, 3, 1], 4, 1.6e-10, None, p, mf, ls, s))
     for N in ([[12, 12], [10, 11, 12]] if quick else [[12, 12], [10, 11, 12], [12, 12, 12]]):
         for ls in (1, 2):
             for s in range(3 if quick else 6):          # whether a local solve needs a restart depends on the data
@@ -244,8 +278,11 @@ def bound(tier, seed):
                 "[6,5,4] and [8,8] with a rank-one rhs whose last mode alternates in sign (eps 1e-8) and with rhs / initial guess of disjoint "
                 "support (eps 1e-6), max_full in {0,500}; lap [12,12] and [10,11,12] at eps=1e-10, max_full=0, no preconditioner, both iterative "
                 "local solvers, 3 seeds (local problems need several GMRES cycles). ROUND-6 FAMILY: conv = sum_k I x..x tridiag(-1.8, 2+1/d, -0.2) x..x I on "
-                "[10,12], preconditioner in {'c','r'}, max_full=0, both iterative local solvers, eps 1e-6." % seed)
+                "[10,12], preconditioner in {'c','r'}, max_full=0, both iterative local solvers, eps 1e-6. ROUND-7 FAMILY (known finding KF-nswp-C12): "
+                "sddR = I + 0.3*sym(P)/||P||_F with P random of ranks [1,3,4,3,3,1] on [10,11,12,8,4], rhs rank 4, eps 1.6e-10, direct local solver, seed 0 "
+                "(42240 unknowns: residual computed core by core without forming the matrix; conditioning from ||A-I||_F <= 0.31)." % seed)
     return ("C12 thorough: shapes of order 2..5 with mode sizes 2..12 (10 shapes), operators spd(rank-1 B), dd (rank 1 and 3 B), "
             "lap; rhs ranks {1,4}; eps in {1e-3,1e-6,1e-10}; x0 in {None, random rank 1, rank 3}; all 12 combinations of "
             "preconditioner x max_full x local_solver; seeds {%d,1,2}. Same contract as quick (incl. guess_unchanged and the "
-            "round-3 x0=b / x0-used-twice cases on all shapes, 2 seeds)." % seed)
+            "round-3 x0=b / x0-used-twice cases on all shapes, 2 seeds; round-4, round-6 families on more shapes; round-7 family sddR with seeds 0..2 and "
+            "(None,500,1), ('r',0,2))." % seed)
